@@ -285,3 +285,49 @@ def ann_string_none_default(w: "A" = None, b=None):  # noqa: RUF013
 
 def ann_gen_source(n: int) -> Generator[int, None, None]:
     yield n
+
+
+# ---- round 3 additions to the recorded workload (C02 / C01 realrun)
+def gen_mixed(a):
+    """Yields a container first and then a bare value of its element type (and the other way round)."""
+    yield [1, 2]
+    yield 3
+    yield (1, "x")
+    yield "y"
+    yield A
+    yield A()
+
+
+class L1:
+    def chained(self, a):
+        return a
+
+    @classmethod
+    def cchained(cls, a):
+        return a
+
+
+class L2(L1):
+    def chained(self, a):
+        return super().chained(a)
+
+    @classmethod
+    def cchained(cls, a):
+        return super().cchained(a)
+
+
+class L3(L2):
+    def chained(self, a):
+        return super().chained(a)
+
+    @classmethod
+    def cchained(cls, a):
+        return super().cchained(a)
+
+
+def posonly_star(a, b=2, /, *rest, **more):
+    return a
+
+
+async def agen_func(n):
+    yield n
